@@ -67,6 +67,7 @@ SeqOK(e) ==
 \* C12: every scratch-taking library call of the event ran inside a window of exactly the declared
 \* size: no failed take, arena discipline respected, canaries intact (Scratch.tla)
 ScrOK(e) == \A r \in 1..Len(e.scr) : \A c \in 1..Len(e.scr[r].calls) : CallOK(e.scr[r].calls[c])
+ScrMemOK(e) == \A r \in 1..Len(e.scr) : \A c \in 1..Len(e.scr[r].calls) : CallMemOK(e.scr[r].calls[c])
 
 Verdict(e, k) ==
      (IF EnumOK(e) /\ SeqOK(e) THEN <<>> ELSE << <<k, "enum">> >>) \o
@@ -74,6 +75,7 @@ Verdict(e, k) ==
   \o (IF BeOK(e)   THEN <<>> ELSE << <<k, "be">> >>)
   \o (IF FillOK(e) THEN <<>> ELSE << <<k, "fill">> >>)
   \o (IF ScrOK(e)  THEN <<>> ELSE << <<k, "scr">> >>)
+  \o (IF ScrMemOK(e) THEN <<>> ELSE << <<k, "scrmem">> >>)
 
 Init == i = 1 /\ bad = <<>> /\ prev = [did |-> 0, chunk |-> 0, nchunks |-> 1]
 Next == /\ i <= Len(Rec)
